@@ -143,10 +143,42 @@ def subspaces(tier):
             for offs in itertools.product((None, 0x20), repeat=3):
                 yield {'fmt': f, 'files': [{'rec': [0x41, 0x300 + 0x40 * i, 3], 'off': offs[i]} for i in range(3)], 'opts': []}
     subs.append(('several-files-with-offsets', multifile()))
+    subs.append(('records-with-export-entries', [{'fmt': f, 'exp': e, 'n': n} for f in ('Moto', 'Intel', 'MOS', 'Tek', 'C') for e in (0, 1, 2, 3) for n in ((4, 4), (1, 20))]))
     return subs
 
 
+def ev_exportrec(case):
+    """a code file in which a data record is marked 'with symbols' (EXPORT_SYM behind it): the data is data all the same"""
+    core.fresh()
+    n1, n2 = case['n']
+    src = '\tcpu 8051\n\torg 100h\nfoo:\tdb %s\n%s\torg 200h\nbar:\tdb %s\n%s' % (
+        ','.join(str(1 + i) for i in range(n1)), '\texport_sym foo\n' if case['exp'] & 1 else '', ','.join(str(101 + i) for i in range(n2)), '\texport_sym bar\n' if case['exp'] & 2 else '')
+    core.put('a.asm', src)
+    o = core.run('asl', ['-q', 'a.asm'])
+    if o.rc != 0:
+        return core.R(False, 'setup', 'exportrec/asl', 'asl rc=%s on %s' % (o.rc, src.replace('\n', ' / ')))
+    want = {0x100 + i: 1 + i for i in range(n1)}
+    want.update({0x200 + i: 101 + i for i in range(n2)})
+    d = 'p2hex -F %s on the code file of: %s' % (case['fmt'], src.replace('\n', ' / '))
+    o = core.run('p2hex', ['-q', 'a.p', 'a.hex', '-F', case['fmt']])
+    ck = core.crashkind(o)
+    if ck:
+        return core.R(False, ck, 'exportrec/crash/' + ck, '%s on %s' % (ck, d), transitions=2)
+    if o.rc != 0:
+        return core.R(False, 'rc', 'exportrec/rc', 'exit %s on %s' % (o.rc, d), transitions=2)
+    try:
+        mem, entry, info = DEC[case['fmt']]((core.get('a.hex') or b'').decode('latin-1').replace('\r', ''))
+    except hexfmt.FmtErr as e:
+        return core.R(False, 'format', 'exportrec/format', '%s on %s' % (e, d), transitions=2)
+    if mem != want:
+        bad = [a for a in sorted(set(mem) | set(want)) if mem.get(a) != want.get(a)][:3]
+        return core.R(False, 'contents', 'exportrec/contents/%s' % ('data-of-a-record-with-symbols-missing' if len(mem) < len(want) else 'other'), 'decoded contents differ at %s on %s' % ([hex(a) for a in bad], d), transitions=2)
+    return core.R(True, 'decoded-ok', states=['exportrec:%d' % case['exp']], transitions=2)
+
+
 def describe(case):
+    if 'exp' in case:
+        return case
     if 'files' in case:
         return 'p2hex -F %s %s  on %s' % (case['fmt'], ' '.join(' '.join(o) for o in case['opts']), ['cpu=%02x start=%x len=%d%s' % (tuple(f['rec']) + ('' if f['off'] is None else ' (offset %x)' % f['off'],)) for f in case['files']])
     return 'p2hex %s %s  on %s%s' % ('-F ' + case['fmt'] if case['fmt'] not in (None, 'PIC', 'AVR') else '(default format)',
@@ -233,6 +265,8 @@ def ev_multifile(case):
 
 
 def evaluate(case):
+    if 'exp' in case:
+        return ev_exportrec(case)
     if 'files' in case:
         return ev_multifile(case)
     if case['fmt'] in ('DSK', 'Mico8'):
